@@ -450,13 +450,33 @@ Definition check_main (kind : string) (input output : J) : verdict :=
         end
     | _, _ => malformed
     end
+  else if String.eqb kind "ow" then
+    (* overwrite: [fmt; ext; h; w1; w2; n1; n2; pseed; shards]: n1 records (ids 1000..) are written,
+       then n2 records (ids 0..) to the same path. Model: a write REPLACES the content of the file
+       (every writer opens its target with File::create), so the file is what the second write
+       alone produces, and by the writer theorems that reads back as ids 0..n2-1 on all three read
+       paths; no part file is left. agree = prop. *)
+    match input, output with
+    | JL [JI _; _; JB _; JI _; JI _; JI n1; JI n2; JI _; _],
+      JL [tag; JL [JI c1; JI c2; JL outs; JB pay; JI leftover]] =>
+        match omap (dec_read jints) outs with
+        | Some rs =>
+            let good :=
+              jtag_is "ok" tag && (c1 =? n1) && (c2 =? n2) && pay && (leftover =? 0)
+              && (Z.of_nat (List.length rs) =? 3)
+              && forallb (fun r => outcome_eqb zlist_eqb r (Ok (zrange n2))) rs in
+            ok_verdict good good
+        | None => malformed
+        end
+    | _, _ => malformed
+    end
   else malformed.
 
 (* a panic of the code under test (or an Err where the harness unwraps) in a place where the model
    has no failure at all is a disagreement and a failed property instance, not a malformed case *)
 Definition is_panic (o : J) : bool := match o with JL [t] => jtag_is "panic" t | _ => false end.
 Definition known_kind (k : string) : bool :=
-  existsb (String.eqb k) ["jl"; "js"; "jw"; "cw"; "cs"; "ps"; "gl"; "jf"; "jb"; "jz"; "cz"]%string.
+  existsb (String.eqb k) ["jl"; "js"; "jw"; "cw"; "cs"; "ps"; "gl"; "jf"; "jb"; "jz"; "cz"; "ow"]%string.
 Definition check_C09 (kind : string) (input output : J) : verdict :=
   let v := check_main kind input output in
   if v_malformed v && is_panic output && known_kind kind then ok_verdict false false else v.
